@@ -16,6 +16,9 @@ KF = {
     "is_bit_set": {"KF_IS_BIT_SET_ZERO": None},
     "assign_digit": {"KF_ASSIGN_DIGIT_ZERO": None},
     "clz": {"KF_CLZ_ZERO": None},
+    "sqrt": {"KF_SQRT_ODD_BITLEN": None},
+    "mod_add": {"KF_MOD_ADD_CARRY": None},
+    "naf": {"KF_NAF_TOP_CARRY": None},
 }
 if os.environ.get("C01_NO_KF"):
     KF = {k: {} for k in KF}
@@ -282,5 +285,139 @@ def wrap_jobs(tier):
     return out
 
 
+# ------------------------------------------------------------------ layer 4: bn_div, iterative algorithms (8-bit digits)
+def loops(n, *fns):
+    return ["%s.%d:%d" % (f, i, n) for f in fns for i in range(0, 32)]
+
+
+def helper_uw(maxd):
+    n = maxd + 1
+    return ["bn_make.0:%d" % n, "v_value.0:%d" % n, "spec_digits.0:5", "spec_set.0:5",
+            "v_memmove.0:%d" % n, "v_memmove.1:%d" % n, "v_memcpy.0:%d" % n]
+
+
+def div_jobs(tier):
+    out = []
+    full = (tier == "thorough")
+    base = cfg(8, 1)
+    def Dj(ca, da, cb, db, cr, mode=None, cost=1, tmo=None, cc=1, nm=""):
+        d = dict(cfg(8, cc), CA=ca, DA=da, CB=cb, DB=db, CR=cr)
+        if mode:
+            d[mode] = None
+        n = max(da - db + 3, 4)
+        us = loops(n, "bn_div") + helper_uw(4) + ["v_memset.0:5", "harness.0:5", "harness.1:5"]
+        if not cc:
+            us += loops(19, "bn_digit_div__int_short")
+        j = J("div-%s%d%d-%d%d-r%d%s" % (tag(8, cc), ca, da, cb, db, cr, ("-" + mode.lower()) if mode else ""), "div.c", d, max(ca, cb) + 1,
+              "8-bit digits, dividend capacity %d / %d digits, divisor capacity %d / %d digits, remainder capacity %d%s; all digit values incl. stale digits"
+              % (ca, da, cb, db, cr, {"REM_IS_BN": ", remainder aliases the dividend", "REM_NULL": ", no remainder", "D_IS_BN": ", divisor is the dividend object",
+                                      "USE_BN_MOD": ", through bn_mod", None: ""}[mode]),
+              ("bn_div: EINVAL for zero divisor; n == q*d + r, r < d; EOVERFLOW only when normalisation / remainder does not fit" if not mode else
+               "bn_div aliased/partial form == plain call (which is decided against n == q*d + r)"), unwindset=us, cost=cost)
+        if tmo:
+            j["timeout"] = tmo
+        return j
+    # trivial paths (no long division): zero divisor, n < d, n == d object
+    out.append(Dj(2, 1, 2, 0, 2))
+    out.append(Dj(2, 1, 2, 2, 2))
+    out.append(Dj(3, 2, 3, 3, 1, cost=2))          # n < d, remainder (= n) does not fit its destination -> EOVERFLOW
+    out.append(Dj(1, 1, 1, 1, 1, "D_IS_BN", cost=30))
+    # long division
+    out.append(Dj(1, 1, 1, 1, 1, cost=100, tmo=600))
+    if full:
+        out.append(Dj(1, 1, 1, 1, 1, cc=0, cost=100, tmo=1500))
+        out.append(Dj(1, 1, 1, 1, 1, "REM_IS_BN", cost=100, tmo=1500))
+        out.append(Dj(1, 1, 1, 1, 1, "REM_NULL", cost=100, tmo=1500))
+        out.append(Dj(1, 1, 1, 1, 1, "USE_BN_MOD", cost=100, tmo=1500))
+        out.append(Dj(2, 2, 2, 1, 2, cost=400, tmo=1500))
+    return out
+
+
+def algo_jobs(tier):
+    out = []
+    full = (tier == "thorough")
+    ST = {"STUB_bn_div": None, "STUB_bn_mult": None}
+    def Aj(name, op, defs, fnloops, shape, desc, bitlen=32, cost=20, tmo=None, kf=None, stubs=True, nset=64, extra_uw=None):
+        d = {"BN_DIGIT_BIT_CNT": 8, "BN_BIT_LEN": bitlen, "BN_CC_MULL_DIV": None, "GCD_ITER": 1}
+        d[op] = None
+        d.update(defs)
+        if stubs:
+            d.update(ST)
+        for k in (kf or []):
+            d.update(KF[k])
+        us = []
+        for n, fns in fnloops:
+            us += loops(n, *fns)
+        us += helper_uw(bitlen // 8) + ["v_memset.0:%d" % (nset + 1)] + (extra_uw or [])
+        j = J("algo-" + name, "algo.c", d, defs.get("CA", 2) + 1, "8-bit digits, " + shape, desc +
+              ("; bn_div/bn_mult replaced by their contracts" if stubs else ""), unwindset=us, cost=cost)
+        j["timeout"] = tmo or (300 if not full else 1500)
+        return j
+    # integer square root (real code throughout; bn_sqrt5 squares through the bn_mult contract)
+    for fn, extra, st, cst in (("bn_sqrt1", {"SQRT_ERR_TOPBIT": None}, False, 70), ("bn_sqrt2", {"SQRT_ERR_TOPBIT": None}, False, 280),
+                               ("bn_sqrt3", {"SQRT_ERR_TOPBIT": None}, False, 30), ("bn_sqrt5", {}, True, 45)):
+        if not full and fn != "bn_sqrt1":
+            continue
+        out.append(Aj("sqrt-%s-c2d1" % fn, "A_SQRT", dict({"SQRTFN": fn, "CA": 2, "DA": 1}, **extra), [(7, (fn,))],
+                      "capacity 2 digits, values 1..255 (one significant digit)", "%s: s*s <= x < (s+1)^2, or EOVERFLOW" % fn,
+                      kf=(["sqrt"] if fn in ("bn_sqrt1", "bn_sqrt2") else None), stubs=st, cost=cst))
+    # gcd
+    if full:
+        out.append(Aj("gcd-c2d1", "A_GCD", {"GCDFN": "bn_gcd", "CA": 2, "DA": 1, "DB": 1, "GCD_ITER": 13}, [(14, ("bn_gcd", "o_gcd"))],
+                      "capacity 2 digits, both operands 1..255", "bn_gcd == Euclid on native integers", cost=80))
+        out.append(Aj("gcdbin-c2d1-v31", "A_GCD", {"GCDFN": "bn_gcd_bin", "CA": 2, "DA": 1, "DB": 1, "GCD_ITER": 8, "VMAX": 31},
+                      [(9, ("o_gcd",)), (11, ("bn_gcd_bin",))], "capacity 2 digits, both operands 1..31", "bn_gcd_bin == Euclid on native integers",
+                      stubs=False, cost=230))
+    out.append(Aj("gcd-c2-zero", "A_GCD", {"GCDFN": "bn_gcd", "CA": 2, "DA": 0, "DB": 1}, [(3, ("bn_gcd", "o_gcd"))],
+                  "capacity 2 digits, first operand zero", "bn_gcd(0, b) == b", cost=1))
+    # modular layer, one-digit operands in a 3-digit capacity (product fits), and full-capacity add/sub
+    names = {1: "add", 2: "sub", 3: "mult", 4: "square", 5: "multdigit", 6: "reduce", 7: "expdigit", 8: "exp"}
+    for mop in (1, 2, 3, 4, 5, 6):
+        out.append(Aj("mod%s-c3d1" % names[mop], "A_MODOP", {"MOP": mop, "CA": 3, "DA": 1, "DB": 1, "DM": 1}, [],
+                      "capacity 3 digits, bn, n, m one significant digit each (all values)", "bn_mod_%s == the operation on native integers, or EOVERFLOW" % names[mop],
+                      kf={1: ["mod_add"], 5: ["mult_digit"]}.get(mop), cost={5: 35}.get(mop, 8)))
+    for mop in (1, 2):
+        out.append(Aj("mod%s-c1d1-fullcap" % names[mop], "A_MODOP", {"MOP": mop, "CA": 1, "DA": 1, "DB": 1, "DM": 1}, [],
+                      "capacity 1 digit fully used", "bn_mod_%s at full capacity" % names[mop], kf={1: ["mod_add"]}.get(mop), cost=3))
+    if full:
+        for mop, fn in ((7, "bn_mod_exp_digit"), (8, "bn_mod_exp")):
+            out.append(Aj("mod%s-c3d1-e15" % names[mop], "A_MODOP", {"MOP": mop, "EMAX": 15, "CA": 3, "DA": 1, "DB": 1, "DM": 1},
+                          [(6, (fn,)), (16, ("harness",))], "capacity 3 digits, base and modulus one digit (all values, m >= 2), exponent 0..15",
+                          "%s == repeated native multiplication mod m" % fn, cost=40))
+        # inverses: odd prime modulus
+        out.append(Aj("inv1-m13", "A_INV", {"INVFN": "bn_mod_inv1", "MMAX": 13, "CA": 2, "DA": 1, "DM": 1}, [(7, ("bn_mod_inv1",)), (54, ("harness",))],
+                      "capacity 2 digits, modulus an odd prime <= 13, argument one digit", "bn_mod_inv1: EINVAL for 0 / unreduced, else x * bn == 1 (mod m)", bitlen=64, cost=230))
+        out.append(Aj("inv2-m13", "A_INV", {"INVFN": "bn_mod_inv2", "MMAX": 13, "CA": 2, "DA": 1, "DM": 1}, [(7, ("bn_mod_inv2",)), (54, ("harness",))],
+                      "capacity 2 digits, modulus an odd prime <= 13, argument one digit", "bn_mod_inv2: EINVAL for 0 / unreduced, else x * bn == 1 (mod m)", bitlen=64, cost=330))
+        out.append(Aj("invbin-m13", "A_INV", {"INVFN": "bn_mod_inv_bin", "MMAX": 13, "MFIX": 13, "CA": 2, "DA": 1, "DM": 1}, [(54, ("harness",))],
+                      "capacity 2 digits, modulus 13, argument one digit (all values)", "bn_mod_inv_bin (= bn_mod_inv): EINVAL for 0 / unreduced, else x * bn == 1 (mod 13)",
+                      bitlen=64, cost=380, extra_uw=["bn_mod_inv_bin.8:5", "bn_mod_inv_bin.10:5", "bn_mod_inv_bin.15:7"]))
+        out.append(Aj("legendre-m31", "A_LEGENDRE", {"MMAX": 31, "CA": 3, "DA": 1, "DM": 1}, [(6, ("bn_mod_exp",)), (54, ("harness",))],
+                      "capacity 3 digits, modulus an odd prime <= 31, argument one digit", "bn_mod_legendre == Legendre symbol by exhaustive squares", bitlen=64, cost=250))
+        for mfix in (7, 13):
+            out.append(Aj("modsqrt-m%d" % mfix, "A_MODSQRT", {"MMAX": mfix, "MFIX": mfix, "CA": 3, "DA": 1, "DM": 1},
+                          [(5, ("bn_mod_exp", "bn_mod_sqrt")), (54, ("harness",))], "capacity 3 digits, modulus %d, argument one digit (all values)" % mfix,
+                          "bn_mod_sqrt: root^2 == bn (mod m), or -1 exactly for non-residues", bitlen=64, cost=40 if mfix == 7 else 175))
+    else:
+        out.append(Aj("modsqrt-m7", "A_MODSQRT", {"MMAX": 7, "MFIX": 7, "CA": 3, "DA": 1, "DM": 1},
+                      [(5, ("bn_mod_exp", "bn_mod_sqrt")), (54, ("harness",))], "capacity 3 digits, modulus 7, argument one digit (all values)",
+                      "bn_mod_sqrt: root^2 == bn (mod m), or -1 exactly for non-residues", bitlen=64, cost=40))
+    # recoding
+    out.append(Aj("naf-w4-c2d1", "A_NAF", {"WND": 4, "NAFSZ": 9, "CA": 2, "DA": 1}, [(10, ("bn_calc_naf", "harness"))],
+                  "capacity 2 digits, values 1..255, window 4, array of 9", "bn_calc_naf: digits odd, |d| < 2^(w-1), non-adjacent, sum == value, bounds", stubs=False, kf=["naf"], cost=80))
+    out.append(Aj("naf-w4-c2d1-short", "A_NAF", {"WND": 4, "NAFSZ": 5, "CA": 2, "DA": 1}, [(10, ("bn_calc_naf", "harness"))],
+                  "capacity 2 digits, values 1..255, window 4, array of 5", "bn_calc_naf: EOVERFLOW when the array is shorter than bits+1, else exact", stubs=False, kf=["naf"], cost=40))
+    if full:
+        out.append(Aj("naf-w2-c2d2", "A_NAF", {"WND": 2, "NAFSZ": 17, "CA": 2, "DA": 2}, [(18, ("bn_calc_naf", "harness"))],
+                      "capacity 2 digits fully used, window 2, array of 17", "bn_calc_naf (w=2)", stubs=False, kf=["naf"], cost=270))
+        out.append(Aj("naf-w3-c1d1", "A_NAF", {"WND": 3, "NAFSZ": 9, "CA": 1, "DA": 1}, [(10, ("bn_calc_naf", "harness"))],
+                      "capacity 1 digit fully used, window 3, array of 9", "bn_calc_naf (w=3)", stubs=False, kf=["naf"], cost=80))
+        out.append(Aj("jsf-c2d1", "A_JSF", {"NAFSZ": 18, "CA": 2, "DA": 1, "DB": 1}, [(11, ("bn_calc_jsf", "harness"))],
+                      "capacity 2 digits, both operands 1..255, array of 18", "bn_calc_jsf: digits in {-1,0,1}, both rows denote their operand, bounds", stubs=False, cost=120))
+    out.append(Aj("combo-c3d2", "A_COMBO", {"CA": 3, "DA": 2}, [(6, ("bn_combo_column_get", "harness"))],
+                  "capacity 3 digits, 2 significant, window 1..4 x count 1..4, offset < 40", "bn_combo_column_get == selected bit column, stale digits not read", stubs=False, cost=4))
+    return out
+
+
 def jobs(tier):
-    return digit_jobs(tier) + kern_jobs(tier) + impexp_jobs(tier) + wrap_jobs(tier)
+    return digit_jobs(tier) + kern_jobs(tier) + impexp_jobs(tier) + wrap_jobs(tier) + div_jobs(tier) + algo_jobs(tier)
